@@ -324,6 +324,9 @@ def load_known():
 def finish(res, level, checker_cmd, rule, explanation=None):
     """Write evidence, print verdict lines, return exit status."""
     pid = res.pid
+    if any(k == "translate" for k, _, _ in res.broken):
+        # the theorems were checked against stale generated files: nothing is established about the current source
+        res.discharged = []
     known = [k for k in load_known() if k["property"] == pid and k.get("status") == "known"]
     reported = []
     for what, replay in res.violations:
